@@ -73,7 +73,7 @@ def data_of(n):
     """label -> a FRESH data dict.  0 = {}; small labels = {"x": n}; labels >= RICH_BASE (round 5) = {"x": n, ..edge
     members..}: text with lone surrogates / astral code points / NUL / U+2028 as values and keys, nested containers,
     and containers / scalars that are dict / list / str / int SUBCLASSES (harness/edgevals.py) - values every back end
-    of the unchanged tree stores and returns `==` (established by /tmp/fix6-data/probe_roundtrip.py, notes C02.md)."""
+    of the unchanged tree stores and returns `==` (established by notes/probes/fix6_roundtrip.py, notes C02.md)."""
     if n == 0:
         return {}
     r = RICH.get(n)
